@@ -254,6 +254,7 @@ type c03BlockOps struct {
 	height  uint64
 	created []*types.Block // blocks built by CreateProposalBlock, in order
 	createR []uint32
+	createS []cstate.LatestBlockState
 }
 
 func (b *c03BlockOps) Base() uint64                                { return 0 }
@@ -276,6 +277,7 @@ func (b *c03BlockOps) CreateProposalBlock(height uint64, state cstate.LatestBloc
 	blk := types.NewBlock(h, nil, commit, nil, trie.NewStackTrie(nil))
 	b.created = append(b.created, blk)
 	b.createR = append(b.createR, b.node.cs.Round)
+	b.createS = append(b.createS, state)
 	return blk, blk.MakePartSet(types.BlockPartSizeBytes)
 }
 func (b *c03BlockOps) CommitAndValidateBlockTxs(block *types.Block, lastCommit stypes.LastCommitInfo, byzVals []stypes.Evidence) ([]*types.Validator, common.Hash, error) {
@@ -373,7 +375,13 @@ func c03NewNode(net *c03Net, me int, cfg *configs.ConsensusConfig) *c03Node {
 	logger := log.New()
 	be := cstate.NewBlockExecutor(nd.store, logger, c03Ev{}, nd.bo)
 	nd.probe = cstate.NewBlockExecutor(nd.store, logger, c03Ev{}, nd.bo)
-	cs := NewConsensusState(logger, cfg, net.state.Copy(), nd.bo, be, c03Ev{})
+	// NewTimeoutTicker() calls stopTimer() before a logger is set; when the zero-duration timer has
+	// already fired and its channel is empty, stopTimer logs through the nil logger and panics
+	// (rare, timing dependent, unrelated to C03): retry.
+	var cs *ConsensusState
+	for try := 0; cs == nil && try < 50; try++ {
+		c03Guarded(func() { cs = NewConsensusState(logger, cfg, net.state.Copy(), nd.bo, be, c03Ev{}) })
+	}
 	nd.cs = cs
 	nd.ticker = &c03Ticker{node: nd, last: *EmptyTimeoutInfo()}
 	cs.timeoutTicker = nd.ticker
@@ -462,6 +470,7 @@ type c03Case struct {
 	createdSeen int
 	maxRound    uint32
 	dead        bool
+	propTbl     map[uint64][]int // height -> proposer index by round (1-based)
 }
 
 func (c *c03Case) hid(h common.Hash) int {
@@ -649,29 +658,29 @@ func (c *c03Case) newBlock(kind string) *c03Block {
 		}
 	}
 	blk := types.NewBlock(h, nil, commit, nil, trie.NewStackTrie(nil))
-	return c.register(blk, kind, []uint32{types.BlockPartSizeBytes, 300, 150}[c.r.Pick(3, 1, 1)])
+	return c.register(blk, kind, []uint32{types.BlockPartSizeBytes, 300, 150}[c.r.Pick(3, 1, 1)], st)
 }
 
 // register interns a block, declares it to the model and checks the validity notions against each other.
-func (c *c03Case) register(blk *types.Block, kind string, partSize uint32) *c03Block {
+func (c *c03Case) register(blk *types.Block, kind string, partSize uint32, st cstate.LatestBlockState) *c03Block {
 	if b, ok := c.byHash[blk.Hash()]; ok {
 		return b
 	}
-	cs := c.nd.cs
 	ps := blk.MakePartSet(partSize)
 	b := &c03Block{blk: blk, parts: ps, kind: kind}
 	b.hashID = c.hid(blk.Hash())
 	b.partsID = c.pid(ps.Header())
-	spec := c03SpecValid(cs.state, blk)
-	impl := c.nd.probe.ValidateBlock(cs.state, blk) == nil
+	spec := c03SpecValid(st, blk)
+	probe := cstate.NewBlockExecutor(c.nd.store, log.New(), c03Ev{}, c.nd.bo) // fresh cache
+	impl := probe.ValidateBlock(st, blk) == nil
 	if spec {
-		b.validAt = cs.Height
+		b.validAt = st.LastBlockHeight + 1
 	}
 	if spec != (kind == "valid" || kind == "own") {
 		c.o.Fail(c.opNo, "harness-block-kind", fmt.Sprintf("kind=%s spec=%v", kind, spec))
 	}
 	if spec != impl {
-		c.o.Fail(c.opNo, "validateBlock-vs-spec", fmt.Sprintf("kind=%s height=%d spec=%v validateBlock=%v", kind, cs.Height, spec, impl))
+		c.o.Fail(c.opNo, "validateBlock-vs-spec", fmt.Sprintf("kind=%s height=%d spec=%v validateBlock=%v", kind, st.LastBlockHeight+1, spec, impl))
 	}
 	c.blocks = append(c.blocks, b)
 	c.byHash[blk.Hash()] = b
@@ -870,7 +879,7 @@ func (c *c03Case) oracles(evs []c03Event, panicked string) {
 				c.o.Fail(c.opNo, "double-sign-proposal", fmt.Sprintf("h=%d r=%d first=%s second=%s", e.height, e.round, prev, c.bidS(e.bid)))
 			}
 			c.signedKey[key] = c.bidS(e.bid)
-			if c.nd.me < 0 || c.proposerAt(e.round) != c.nd.me {
+			if c.nd.me < 0 || c.proposerAt(e.height, e.round) != c.nd.me {
 				c.o.Fail(c.opNo, "proposal-not-proposer", fmt.Sprintf("h=%d r=%d", e.height, e.round))
 			}
 		case "cm":
@@ -893,17 +902,40 @@ func (c *c03Case) oracles(evs []c03Event, panicked string) {
 	}
 }
 
-// proposerAt: proposer index at (current height, round) from the validator set alone (C12 code)
-func (c *c03Case) proposerAt(round uint32) int {
-	vs := c.nd.cs.state.Validators.Copy()
-	if round > 1 {
-		vs.IncrementProposerPriority(int64(round - 1))
+// proposerAt: proposer index at (height, round), from the validator set alone (C12 code):
+// Validators(h) = genesis set advanced h-1 times (no validator updates in these runs), then round-1 times.
+func (c *c03Case) proposerAt(height uint64, round uint32) int {
+	if l, ok := c.propTbl[height]; ok && int(round) < len(l) {
+		return l[round]
 	}
-	idx, _ := c.nd.cs.state.Validators.GetByAddress(vs.GetProposer().Address)
-	return int(idx)
+	return -1
+}
+
+func (c *c03Case) buildProposers() {
+	c.propTbl = map[uint64][]int{}
+	for h := uint64(1); h <= c03MaxHeights+1; h++ {
+		vs := c.net.vals.Copy()
+		if h > 1 {
+			vs.IncrementProposerPriority(int64(h - 1))
+		}
+		l := []int{-1}
+		s := []string{"PROPOSERS", fmt.Sprint(h)}
+		for r := uint32(1); r <= c03MaxRounds; r++ {
+			w := vs.Copy()
+			if r > 1 {
+				w.IncrementProposerPriority(int64(r - 1))
+			}
+			idx, _ := c.net.vals.GetByAddress(w.GetProposer().Address)
+			l = append(l, int(idx))
+			s = append(s, fmt.Sprint(idx))
+		}
+		c.propTbl[h] = l
+		c.o.InOnly(strings.Join(s, " "))
+	}
 }
 
 const c03MaxRounds = 24
+const c03MaxHeights = 5
 
 func (c *c03Case) declareHeight() {
 	cs := c.nd.cs
@@ -911,12 +943,11 @@ func (c *c03Case) declareHeight() {
 		return
 	}
 	c.declaredH = cs.Height
-	l := []string{"PROPOSERS", fmt.Sprint(cs.Height)}
-	for r := uint32(1); r <= c03MaxRounds; r++ {
-		l = append(l, fmt.Sprint(c.proposerAt(r)))
-	}
-	c.o.InOnly(strings.Join(l, " "))
 	c.precommits = nil
+	// the table handed to the model must be the node's own view at the start of the height
+	if idx, _ := cs.Validators.GetByAddress(cs.Validators.GetProposer().Address); cs.Step == cstypes.RoundStepNewHeight && int(idx) != c.proposerAt(cs.Height, 1) {
+		c.o.Fail(c.opNo, "harness-proposer-table", fmt.Sprintf("h=%d node=%d table=%d", cs.Height, idx, c.proposerAt(cs.Height, 1)))
+	}
 }
 
 // --- executing one op on the implementation
@@ -933,7 +964,7 @@ func (c *c03Case) run(input string, f func() string) {
 	for ; c.createdSeen < len(nd.bo.created); c.createdSeen++ {
 		blk := nd.bo.created[c.createdSeen]
 		// validity of an own block refers to the height it was built for
-		b := c.register(blk, "own", types.BlockPartSizeBytes)
+		b := c.register(blk, "own", types.BlockPartSizeBytes, nd.bo.createS[c.createdSeen])
 		c.held[blk.Hash()] = true
 		c.o.InOnly(fmt.Sprintf("CREATE %d %d %d %d", blk.Height(), nd.bo.createR[c.createdSeen], b.hashID, b.partsID))
 	}
@@ -1108,7 +1139,10 @@ func (c *c03Case) drainOne() bool {
 			// find the block these parts belong to (an own block, or the valid block re-proposed)
 			var blk *c03Block
 			for _, b := range c.blocks {
-				if b.parts.Total() == uint32(len(parts)) && b.parts.GetPart(0).Proof.Verify(b.parts.Hash().Bytes(), m.Part.Bytes) == nil && b.parts.HasHeader(types.PartSetHeader{Total: uint32(m.Part.Proof.Total), Hash: b.parts.Hash()}) {
+				if b.parts.Total() != uint32(len(parts)) {
+					continue
+				}
+				if ok, err := types.NewPartSetFromHeader(b.parts.Header()).AddPart(m.Part); ok && err == nil {
 					blk = b
 				}
 			}
@@ -1252,7 +1286,7 @@ func (c *c03Case) advProposal() {
 		pol = cs.ValidRound
 	}
 	p := types.NewProposal(h, r, pol, bid)
-	signer := c.proposerAt(cs.Round)
+	signer := c.proposerAt(cs.Height, cs.Round)
 	// the proposer of the node's current round as the node computes it (round-dependent)
 	if c.r.Chance(1, 8) {
 		signer = c.r.Intn(c.net.n)
@@ -1317,7 +1351,7 @@ func (c *c03Case) advTimeout() {
 func (c *c03Case) script(maxOps int) {
 	cs := c.nd.cs
 	for c.opNo < maxOps && !c.dead {
-		if cs.Round > c03MaxRounds-3 || cs.Height > 4 {
+		if cs.Round > c03MaxRounds-3 || cs.Height >= c03MaxHeights {
 			return
 		}
 		// own messages: usually promptly, sometimes late (interleaved with peer messages)
@@ -1412,6 +1446,7 @@ func TestVerifC03(t *testing.T) {
 			l = append(l, fmt.Sprint(p))
 		}
 		o.InOnly(strings.Join(l, " "))
+		c.buildProposers()
 		c.lastHRS = [3]uint64{nd.cs.Height, uint64(nd.cs.Round), uint64(nd.cs.Step)}
 		c.script(60 + r.Intn(120))
 		o.Count(fmt.Sprintf("final-height:%d", nd.cs.Height))
